@@ -734,7 +734,18 @@ async fn run_dir_history(plan: &Plan, models: &[ModelShard], rep: &mut RunReport
                                     }
                                 }
                             }
-                            // the returned list covers everything in the directory
+                            // the returned list covers everything in the directory that is still valid (a shard past its
+                            // expiry is not loaded, hence neither merged nor returned — and must not be deleted)
+                            let now = clock.now.load(Ordering::SeqCst);
+                            let mut after_valid = ModelShard::default();
+                            for (_, _, bytes) in list_shards(&dirs[d].path) {
+                                if let Ok(ps) = ref_shard_parse(&bytes) {
+                                    if ps.footer.hmac_key == ZERO_H && ps.footer.expiry >= now {
+                                        after_valid = union_models(&after_valid, &model_of_parsed(&ps));
+                                    }
+                                }
+                            }
+                            let after_model = after_valid;
                             if returned.files.len() != after_model.files.len() || returned.xorbs.len() != after_model.xorbs.len() {
                                 rep.violate("C10.d", "returned-list-incomplete", format!("op {oi}: returned shards hold {} files / {} xorbs, directory holds {} / {}", returned.files.len(), returned.xorbs.len(), after_model.files.len(), after_model.xorbs.len()));
                             }
@@ -840,8 +851,14 @@ async fn run_dir_history(plan: &Plan, models: &[ModelShard], rep: &mut RunReport
                 if !list.is_empty() {
                     let (path, _h, _b) = &list[(*pick % list.len() as u64) as usize];
                     if let Ok(sf) = MDBShardFile::load_from_file(path) {
-                        if sf.export_with_expiration(&dirs[d].path, Duration::from_secs(*valid_secs)).is_ok() {
+                        if let Ok(out) = sf.export_with_expiration(&dirs[d].path, Duration::from_secs(*valid_secs)) {
                             rep.count("ops:unkeyed_export_with_expiry", 1);
+                            // the expiring copy becomes the only holder of these records (as in a shard cache)
+                            if out.path != *path {
+                                let _ = std::fs::remove_file(path);
+                                dirs[d].mgr = None;
+                                damaged_expectation[d] = true;
+                            }
                         }
                     }
                 }
